@@ -889,7 +889,7 @@ class Representation:
         proj = symmetric_projection(self._dim)
         square_rep = Representation()
         for g in self.asym_gens():
-            square_rep[g] = proj * tensor_rep[g] * incl
+            square_rep[g] = proj @ tensor_rep.generators[g] @ incl
 
         return square_rep
 
@@ -1110,6 +1110,6 @@ def symmetric_projection(n):
     proj_matrix = np.zeros((int(n * (n + 1) / 2), n * n))
     for i in range(n * n):
         u, v = tensor_pos(i,n)
-        proj_matrix[_sym_index(u, v, n)][i] = 1
+        proj_matrix[sym_index(u, v, n)][i] = 1
 
     return np.array(proj_matrix)
